@@ -10,7 +10,8 @@
    denotation of the whole byte string) are checked by the strict decoder oracle on the C's bytes and have no theorem
    yet (they need the Coq `Spec.decode` of C04, which is another file). *)
 From Coq Require Import List NArith String.
-From Wbxml Require Import Model.Codec Model.TablesDefs Model.EncWbxml Model.TreeNorm Proofs.EncWbxmlProofs Proofs.EncWbxmlSerialize Proofs.EncWbxmlDenote Proofs.EncWbxmlAbs Proofs.EncWbxmlStrict2 Proofs.EncWbxmlDenote2.
+From Wbxml Require Import Model.Codec Model.TablesDefs Model.EncWbxml Model.TreeNorm Proofs.EncWbxmlProofs Proofs.EncWbxmlSerialize Proofs.EncWbxmlDenote Proofs.EncWbxmlAbs Proofs.EncWbxmlStrict2 Proofs.EncWbxmlDenote2
+     Model.EncWbxmlEvents Proofs.EncWbxmlTblOk Proofs.EncWbxmlDenote3.
 From Wbxml Require Model.Parser Model.Spec.
 Import ListNotations.
 Local Open Scope N_scope.
@@ -298,4 +299,69 @@ Example C06_attribute_fragment_example :
 Proof.
   cbv zeta. split; [vm_compute; reflexivity|]. split; [vm_compute; reflexivity|]. split; [vm_compute; reflexivity|].
   split; [vm_compute; reflexivity|]. eexists. split; [vm_compute; reflexivity|vm_compute; reflexivity].
+Qed.
+
+(* THE STRING-TABLE AXIS, LITERAL NAMES INCLUDED.  String table ON or OFF, token or LITERAL tags, attributes with token or
+   LITERAL names, attribute values and text cut into inline strings / attribute value tokens / STRING-TABLE REFERENCES,
+   numeric / textual (in the table or not) / anonymous public id: whenever the conversion succeeds and the output is
+   shorter than 2^32 octets, the bytes are the serialization of a strict abstract document d, and Spec.decode_lang on the
+   encoder's bytes (language forced) returns an event list that equals the events of the NORMALISED source tree
+   (doc_events3: names, attributes in order with their FULL values, character data) MODULO merge_chars
+   (Model/EncWbxmlEvents.v: adjacent character-data events concatenated — with the table one text is written, and hence
+   reported, as several pieces; without table, and in attribute values always, there is nothing to merge).
+   The link that was missing: every index the encoder emits (STR_T, LITERAL, textual public id) is the offset of an entry
+   of the table in force, the table is append-only, and on the octets finally written an entry's offset resolves
+   (Spec.str_at) to exactly the entry's string (Proofs/EncWbxmlTblOk.v: entry_resolves, strtbl_initialize_ok,
+   abs_node_tok).
+   Hypotheses: tree_ok3 (tags / attribute starts are L's rows or names unknown to L, octets 1..255, depth <= 1000,
+   element and text nodes only), vals_ok L, the encoder's tables are L's (to_blang L).
+   PARTIAL only in: languages without typed values and without extension tokens (not WV, DRMREL, SyncML, SI, EMN, OTA;
+   l_exts = None excludes WML variables), no binary-flagged content, CDATA, PI, embedded tree; a token-named attribute
+   whose value does not start with the row's prefix (written as a literal) is outside tree_ok3. *)
+Theorem C06_strict_decoding_yields_normalised_source_strtbl_partial : forall tblb TBL L o tag attrs ch bs,
+  let e := enc_env (to_blang L) o in
+  plain_env e = true -> vals_ok L = true -> l_exts L = None ->
+  tree_ok3 L 0 (NElt tag attrs ch) = true ->
+  find (fun x => l_id x =? l_id L) TBL = Some L ->
+  o_version o < 4 -> header_public_id e < 4294967296 -> header_public_id e <> 0 ->
+  (match header_pid e with Some p => okb p = true | None => True end) ->
+  len bs < 4294967296 ->
+  enc_wbxml tblb (to_blang L) o [NElt tag attrs ch] = EOk bs ->
+  exists d evs, bs = Spec.serialize d /\ Spec.strict_doc d = true /\
+            Spec.denote_with TBL (Some L) d = Some evs /\ Spec.decode_lang TBL (l_id L) bs = Some evs /\
+            merge_chars evs = merge_chars (doc_events3 L e (o_keep_ws o) (NElt tag attrs ch)).
+Proof. exact strict_decode_of_encoding3. Qed.
+Print Assumptions C06_strict_decoding_yields_normalised_source_strtbl_partial.
+
+(* an index of the table resolves on the octets written to the string of its entry *)
+Theorem C06_strtbl_entry_resolves_on_written_table : forall T x,
+  offsets_from 0 T -> In x T -> okb (s_str x) = true ->
+  Spec.str_at (strtbl_construct T) (s_off x) = Some (s_str x).
+Proof. exact entry_resolves. Qed.
+Print Assumptions C06_strtbl_entry_resolves_on_written_table.
+
+(* merge_chars is a normal form (idempotent) and compatible with concatenation *)
+Theorem C06_merge_chars_idempotent : forall l, merge_chars (merge_chars l) = merge_chars l.
+Proof. exact Wbxml.Proofs.EncWbxmlMerge.merge_idem. Qed.
+Print Assumptions C06_merge_chars_idempotent.
+
+(* the hypotheses are satisfiable and the normal form is needed: string table on, the text "abcd wxyz" occurs twice (its
+   words go to the table), a literal element <zz> and a literal attribute q="abcd"; the decoder reports the text in pieces *)
+Example C06_strtbl_fragment_example :
+  let L := mk_lang 9997 4 None None None (Some [mk_tag "p"%string 0 32 0])
+                   None (Some [mk_attr "id"%string None 0 11]) None None in
+  let o := mk_opts 3 true false false in
+  let txt := [97; 98; 99; 100; 32; 119; 120; 121; 122] in
+  let txt2 := [97; 98; 99; 100; 32; 101; 102; 103; 104] in
+  let t := NElt (TagTok 0 32 0 [112]) [mk_at (AttrLit [113]) [97; 98; 99; 100]]
+                [NElt (TagLit [122; 122]) [] [NText txt]; NElt (TagTok 0 32 0 [112]) [] [NText txt2]] in
+  plain_env (enc_env (to_blang L) o) = true /\ vals_ok L = true /\ tree_ok3 L 0 t = true /\
+  exists bs evs, enc_wbxml [] (to_blang L) o [t] = EOk bs /\
+             Spec.decode_lang [L] 9997 bs = Some evs /\
+             evs <> doc_events3 L (enc_env (to_blang L) o) false t /\
+             merge_chars evs = merge_chars (doc_events3 L (enc_env (to_blang L) o) false t).
+Proof.
+  cbv zeta. split; [vm_compute; reflexivity|]. split; [vm_compute; reflexivity|]. split; [vm_compute; reflexivity|].
+  eexists. eexists. split; [vm_compute; reflexivity|]. split; [vm_compute; reflexivity|].
+  split; [vm_compute; discriminate|vm_compute; reflexivity].
 Qed.
